@@ -1,11 +1,21 @@
 (* C02 — input decoding is total: no byte stream can crash it or yield malformed events.
-   Statements only; proofs in Decoder/{PayloadProofs,TermSizeProofs,EventsProofs,EventsTheorems}.v
-   on top of the generic tokeniser theorems of C03.
+   Statements only; proofs in Decoder/{PayloadProofs,TermSizeProofs,TermcapProofs,EventsProofs,
+   EventsTheorems}.v on top of the generic tokeniser theorems of C03.
 
-   The automata, the order of the registered matchers and the DecMode code lists are the ones
-   regenerated from the source for this run (Gen/ProdDFA.v); the shape certificates below are
-   recomputed and re-checked by the kernel against them (vm_compute), so a grammar edit that
-   lets a too-short sequence reach a payload decoder breaks `*_certs` and nothing else. *)
+   Counted (18 Theorems): C02_total_event/_command, C02_run_no_panic_event/_command,
+   C02_payload_no_panic(_command), C02_utf8_decoder, C02_utf8_decoder_chunking, C02_chars_scalar,
+   C02_numbers, C02_parameter_values, C02_cursor_position, C02_numeric_fields, C02_modified_keys,
+   C02_mouse_protocol, C02_mouse_unnamed, C02_spans_in_order(_command).
+   Audited but not counted: the reflection Lemmas event_certs / command_certs / utf8_cert,
+   C02_calls_accepted(_command), C02_utf8_decoder_exhausted (definitional), C02_tables,
+   C02_old_code_refuted (the pre-fix bodies), and the Examples.
+
+   The automata, the order of the registered matchers (ids 0..14), the DecMode code lists and the
+   palette tables are the ones regenerated from the source for this run (Gen/ProdDFA.v,
+   Decoder/ProdTabs.v); the shape certificates below are recomputed and re-checked by the kernel
+   against them (vm_compute), so a grammar edit that lets a too-short / odd-field / differently pieced
+   sequence reach a payload decoder breaks `*_certs` and nothing else.  Spec decisions (bit sets,
+   clamping, overlong forms, whole-number codes) are listed in design/C02.md. *)
 From Coq Require Import List NArith Arith Bool.
 From SNT Require Import Base.Outcome Automata.DfaData Automata.DfaDataProofs Automata.Tokenizer
   Automata.TokenizerRun Automata.TokenizerMunch Automata.TokenizerTheorems Automata.Reach Automata.ReachProofs
